@@ -304,6 +304,8 @@ DED_OPS = {
     "concat_mono": lambda x, k: _concat_mono(x, k),
     "concat_interleave": lambda x, k: _concat_interleave(x, k),
     "concat_unknown": lambda x, k: _concat_unknown(x, k),
+    "concat_touch": lambda x, k: _concat_touch(x, k),
+    "concat_axis1_filtered": lambda x, k: _concat_axis1_filtered(x, k),
     "merge_index": lambda x, k: x.merge(_other(k, 2, 3), left_index=True, right_index=True, how="inner"),
     "merge_index_left": lambda x, k: x.merge(_other(k, 3, 5), left_index=True, right_index=True, how="left"),
     "join_series_align": lambda x, k: x.a + _other(k, 2, 2).w,
@@ -325,6 +327,24 @@ def _concat_mono(x, k):
     pdf.index = INDEXES[k](n + 12)[n + 2 : n + 10]
     y = dx.from_pandas(pdf, npartitions=2, sort=True)
     return dx.concat([x, y])
+
+
+def _concat_touch(x, k):
+    """second frame starts exactly at the last index value of the first one"""
+    import dask_expr as dx
+
+    n = 18
+    pdf = c11.base(8)
+    pdf.index = INDEXES[k](n + 8)[n - 1 : n + 7]
+    y = dx.from_pandas(pdf, npartitions=2, sort=True)
+    return dx.concat([x, y])
+
+
+def _concat_axis1_filtered(x, k):
+    """column-wise concat of co-aligned operands with different rows (outer join on the index)"""
+    import dask_expr as dx
+
+    return dx.concat([x.a[x.a > 6].rename("z"), x[["b", "v"]]], axis=1)
 
 
 def _concat_interleave(x, k):
@@ -560,6 +580,12 @@ MUST_RUN = [
     {"kind": "dedicated", "index": "int", "npartitions": 2, "op": "empty_cols"},               # Size of a frame without columns
     {"kind": "dedicated", "index": "int", "npartitions": 4, "op": "sort_repart", "n": 8},       # Repartition above a sort
     {"kind": "dedicated", "index": "int", "npartitions": 1, "op": "merge_index"},               # indexed merge, single-partition side
+    {"kind": "dedicated", "index": "int", "npartitions": 2, "op": "concat_touch"},              # touching index ranges
+    {"kind": "dedicated", "index": "str", "npartitions": 4, "op": "concat_touch"},
+    {"kind": "dedicated", "index": "int", "npartitions": 4, "op": "concat_axis1_filtered"},     # Len of an axis=1 concat
+    {"kind": "rowcount", "source": "from_pandas", "chain": "col_a", "P": [2, 0]},               # D62
+    {"kind": "rowcount", "source": "read_parquet", "chain": "add1", "P": [2, 0]},               # D63
+    {"kind": "rowcount", "source": "read_parquet_arrow", "chain": "col_a", "P": [0, 0]},        # D63
 ]
 
 
